@@ -110,6 +110,35 @@ func (u *flowUnit) run() {
 				if x.X == v {
 					u.add(x.Chan, labels)
 				}
+			case *ssa.If:
+				// control dependence, φ form only: a value selected at the join of the two arms depends on the condition
+				// (`h := zero; if r.Reverted { h = keccak(reason) }`). Early-exit guards create no φ and carry nothing.
+				for _, succ := range x.Block().Succs {
+					region := []*ssa.BasicBlock{succ}
+					for _, b := range x.Parent().Blocks {
+						if b != succ && succ.Dominates(b) && len(succ.Preds) == 1 {
+							region = append(region, b)
+						}
+					}
+					for _, b := range region {
+						targets := b.Succs
+						if b == succ && len(succ.Preds) > 1 { // the arm is empty: succ itself is the join
+							targets = []*ssa.BasicBlock{succ}
+						}
+						for _, j := range targets {
+							if len(succ.Preds) == 1 && succ.Dominates(j) && j != succ {
+								continue
+							}
+							for _, in := range j.Instrs {
+								ph, isPhi := in.(*ssa.Phi)
+								if !isPhi {
+									break
+								}
+								u.add(ph, labels)
+							}
+						}
+					}
+				}
 			case ssa.CallInstruction:
 				cc := x.Common()
 				// result
